@@ -698,6 +698,11 @@ def run(chk, prog):
                 if ty in CONTAINER_TYPES:
                     if fd['name'] in persisted:
                         chk.instance(Ra, '%s.%s (%s) is persisted' % (MODEL_STRUCT[kind], fd['name'], ty))
+                    elif any(x.get('kind') == 'MemberExpr' and x.get('name') == fd['name'] for x in walk(w.body)):
+                        # the writer does touch the field, only not at a call site the engine reads (a table of {name, field} pairs, say)
+                        chk.instance(Ra, '%s.%s (%s) is used by %s in a form that is not understood' % (MODEL_STRUCT[kind], fd['name'], ty, w.name), 'undecided')
+                        chk.broke('%s: field %s.%s is mentioned by the writer but not at a recognised table-write call site; whether it is persisted is '
+                                  'not decided' % (w.name, MODEL_STRUCT[kind], fd['name']))
                     else:
                         chk.instance(Ra, '%s.%s (%s) is not persisted' % (MODEL_STRUCT[kind], fd['name'], ty), 'refuted')
                         chk.violation(Finding('IO.tables', rel(w.file), w.name, 'unpersisted:' + fd['name'], w.where,
@@ -707,14 +712,23 @@ def run(chk, prog):
         eff = sql_effects(prog, w)
         dropped = set()
         reported = set()
+        unread = False
         for (k, tr, node, text) in eff:
             if k in ('DROP', 'DELETE'):
                 dropped.add('*' if tr == '*' else tr)
+            if k == 'OTHER':
+                unread = True       # SQL text the classifier cannot read (built from a table of templates, say) may well be the DROP
             if k == 'INSERT':
                 ok = '*' in dropped or tr in dropped
                 tn = tr[1] if isinstance(tr, tuple) else str(tr)
                 if ok:
                     chk.instance(Rc, '%s: INSERT into %s preceded by a destructive statement' % (w.name, tn))
+                elif unread:
+                    chk.instance(Rc, '%s: INSERT into %s preceded by SQL text that is not understood' % (w.name, tn), 'undecided')
+                    if w.name not in reported:
+                        reported.add(w.name)
+                        chk.broke('%s: a statement whose SQL text is not a readable constant is executed before the INSERT into "%s"; '
+                                  'whether it empties the table is not decided' % (w.name, tn))
                 else:
                     chk.instance(Rc, '%s: INSERT into %s with no preceding DROP/DELETE' % (w.name, tn), 'refuted')
                     if w.name not in reported:
